@@ -261,7 +261,9 @@ TABLE = {
 
 
 def main() -> int:
-    logs = VERIF / "build" / "logs" / "drill"
+    logs = VERIF / "build" / "logs" / "drill_final"
+    if not logs.exists():
+        logs = VERIF / "build" / "logs" / "drill"
     n = 0
     for sid, (what, needs) in sorted(TABLE.items()):
         d = VERIF / "seeded" / sid
